@@ -528,6 +528,13 @@ def run_history(fam, oracle, hist, trace, keep=False):
         statuses.append(err or "ok")
         if keep:
             values[-1] = res
+        if o == O_FANT and err is not None and fam.has_data and (
+                model.train_inputs is None or model.train_targets is None or model.likelihood is None):
+            # the failed call left the SOURCE model without data / likelihood (public attributes):
+            # everything after this point silently predicts from the prior.  Reported once; the
+            # rest of this history is not executed.
+            problems.append(dict(kind="fantasy-corrupts", pos=pos, err=err))
+            break
         # versions as the model counts them; snapshot what the implementation holds now
         if tr["pv"] != pv:
             pv = tr["pv"]
@@ -748,11 +755,13 @@ def run(out, ctx):
 
 def failure_key(famname, p, fam):
     if p["kind"] == "unkeyed":
-        return "unkeyed-setting:%s:%s" % (famname.split(":")[0], fam.cfg_names[p["cfg"]])
+        return "unkeyed-setting:%s:%s" % (famname, fam.cfg_names[3])
     if p["kind"] == "stale":
         return "stale:%s:%s:%s" % (famname, p["opkind"], fam.cfg_names[p["cfg"]])
     if p["kind"] == "status":
         return "status:%s:impl=%s:model=%s" % (famname, p["impl"], p["model"])
+    if p["kind"] == "fantasy-corrupts":
+        return "fantasy-exception-corrupts-source:%s" % famname
     if p["kind"] == "exception":
         return "exception:%s:%s:%s" % (famname, fam.cfg_names[p["cfg"]], p["err"])
     return "harness:%s:%s" % (p["kind"], famname)
@@ -772,7 +781,7 @@ def report_failures(out, failures, seed):
         h = hist[:p["pos"] + 1] if p["pos"] >= 0 else hist
         small, why = h, []
         nshrunk = getattr(report_failures, "n", 0)
-        if p["kind"] in ("stale", "unkeyed", "status", "exception") and nshrunk < 6:
+        if p["kind"] in ("stale", "unkeyed", "status", "exception", "fantasy-corrupts") and nshrunk < 6:
             report_failures.n = nshrunk + 1
             try:
                 small = shrink(fam, oracle, h, fam.coq, p["kind"])
@@ -786,6 +795,9 @@ def report_failures(out, failures, seed):
                            "differs from a fresh model by %s" % p.get("diff"),
                 "status": "operation status differs from the model (impl %s, model %s)" % (p.get("impl"), p.get("model")),
                 "exception": "a prediction raised %s after the history but not on a fresh model" % p.get("err"),
+                "fantasy-corrupts": "get_fantasy_model raised %s and left the SOURCE model with train_inputs / "
+                                    "train_targets / likelihood = None (later predictions silently come from the "
+                                    "prior)" % p.get("err"),
                 }.get(p["kind"], "harness problem: %s" % p.get("err"))
         what += " | family %s, minimal history %s" % (famname, hist_names(small))
         if why:
